@@ -131,6 +131,15 @@ CHECKS["C15"] = dict(
     note=E2NOTE,
 )
 
+CHECKS["C08"] = dict(
+    engine=E2, category="model_checking", design="§3 C08",
+    technique="symbolic execution of loads on scripts with register expressions: measurement values are z3 reals fed to the lambdify'd transform, symbol-set iteration orders are forked by the order stub; z3 decides transform value != written formula per path",
+    text="Scripts with register expressions (1-3 registers, positional/keyword) are loaded by the real code; on every path (one per iteration order of the symbol sets) the "
+         "listed registers must be exactly the written ones and the transform's function applied to symbolic measurement values in the listed order must equal the "
+         "reference value of the written expression for all values away from poles (z3). Bounded by the expression families.",
+    note=E2NOTE,
+)
+
 NOT_YET = "check not built yet in this round (see DESIGN.md §3 for the plan); not claimed"
 
 
